@@ -497,9 +497,11 @@ func ruleOBS4(c *Ctx) []Obligation {
 				return true
 			}
 			n++
-			perSpace[space]++
-			obs = append(obs, Obligation{Key: fmt.Sprintf("numbering of %s IDs: failing branch #%d on assigned IDs", space, perSpace[space]), Pos: c.pos(is.Pos()), Verdict: VIOL,
-				Detail: fmt.Sprintf("`if %s` fails (error / panic) depending on IDs that an earlier print assigned: after printing once, inserting or reordering unnamed values (or reusing a number) makes the next print fail although the same edit before the first print succeeds", exprString(is.Cond))})
+			for _, space := range strings.Split(space, "+") {
+				perSpace[space]++
+				obs = append(obs, Obligation{Key: fmt.Sprintf("numbering of %s IDs: failing branch #%d on assigned IDs", space, perSpace[space]), Pos: c.pos(is.Pos()), Verdict: VIOL,
+					Detail: fmt.Sprintf("`if %s` fails (error / panic) depending on IDs that an earlier print assigned: after printing once, inserting or reordering unnamed values (or reusing a number) makes the next print fail although the same edit before the first print succeeds", exprString(is.Cond))})
+			}
 			return true
 		})
 		if n == 0 {
